@@ -480,3 +480,87 @@ def sched_oracle(run, corr, deep, n_quick=200, n_thorough=4000):
         kinds[i["kind"]] = kinds.get(i["kind"], 0) + 1
     corr.distribution["oracle(C03): racing operations"] = kinds
     return found
+
+
+# ---------------------------------------------------------------------------- C05: trxcon <-> toolkit cross run
+
+def c05_cross(run, corr, deep, n_quick=60, n_thorough=1500):
+    """end to end on the real code of both sides: commands emitted by the real trxcon (trx_if.c) are fed to the
+    real toolkit transceiver (MS side), and the toolkit's real replies are fed back into the real trxcon
+    response parser: status 0 must be accepted (MEASURE result parsed back), a non-zero status rejected
+    (critical) or logged (non-critical) -- never a mismatch, never a truncated SETFH."""
+    from props import trxcon_part as tp
+    exe = tp.build(run)
+    rng = random.Random(run.seed * 977 + 3)
+    n = run.scale(n_quick, n_thorough) * (3 if deep else 1)
+    found = 0
+    sessions = []
+    for _ in range(n):
+        a = tp.valid_arfcn(rng)
+        cmds = ["RESET"]
+        if rng.random() < 0.5:
+            N = rng.choice([1, 2, 8, 9, 16, 33, 62, 64])
+            ma = [tp.valid_arfcn(rng, False if N > 62 else None) for _ in range(N)]
+            cmds.append("SETFREQ_H1 %d %d %d %s" % (rng.randrange(64), rng.randrange(64), N, " ".join(map(str, ma))))
+        else:
+            cmds.append("SETFREQ_H0 %d" % a)
+        cmds += ["SETSLOT %d %d" % (rng.randrange(8), rng.choice([2, 3, 5, 6, 7, 9])), "POWERON", "MEASURE %d" % a,
+                 "SETTA %d" % rng.randrange(-128, 128), "POWERON", "POWEROFF"]
+        sessions.append(cmds)
+    flat = [c for s in sessions for c in s]
+    out = vf.run_lines([exe], ["tc.cmd " + c for c in flat])
+    it = iter(out)
+    lines, metas = [], []
+    for cmds in sessions:
+        texts = []
+        for c in cmds:
+            a = next(it)
+            if a == "CRASH" or not a.split("|")[0].strip().lstrip("-").isdigit() or int(a.split("|")[0]) != 0:
+                continue        # e.g. -ENOSPC for a Mobile Allocation that does not fit: nothing is sent
+            rc, q, sent = tp._parse_cmd_answer(a)
+            crit = [int(x.split(":")[0]) for x in a.split("|")[1].split()[1:]]
+            texts += list(zip(q, crit))
+        if texts:
+            lines.append("world.run 1 - | " + " ; ".join("C 1 6801 %s" % (t + b"\0").hex() for t, _ in texts))
+            metas.append(texts)
+    ans = run_impl(lines)
+    reqs, info = [], []
+    for texts, a in zip(metas, ans):
+        obs = a.split(" | ")[0].split(" ; ")
+        for (t, crit), o in zip(texts, obs):
+            dg, _, exc = worldspec.parse_obs(o)
+            if exc or len(dg) != 1:
+                found += run.report_witness({"kind": "c05-cross", "property": "C05", "what": "the toolkit did not send exactly one reply to a command emitted by trxcon",
+                                             "command": t.decode("latin1")[:200], "observed": o[:300]})
+                continue
+            reqs.append("tc.rsp %s %d %s" % (t.hex(), crit, dg[0][3].hex()))
+            info.append((t, crit, dg[0][3]))
+    out = vf.run_lines([exe], reqs)
+    n_ok = 0
+    for (t, crit, rsp), r, a in zip(info, reqs, out):
+        f = [x.strip() for x in a.split("|")] if a != "CRASH" else ["CRASH"] * 6
+        try:
+            status = int(rsp.decode("latin1").split(" ")[2].rstrip("\0"))
+        except (ValueError, IndexError):
+            status = None
+        if status == 0:
+            ok = f[0] == "0" and f[1] == "accepted"
+        elif status is None:
+            ok = False
+        elif crit:
+            ok = f[0] == "-5" and f[1] == "rejected"
+        else:
+            ok = f[0] == "0" and f[1] == "accepted"
+        # the echoed arguments must be the command's (a truncated SETFH shows here)
+        echoed = rsp.decode("latin1").rstrip("\0").split(" ")
+        sent = t.decode("latin1").split(" ")
+        if status is not None and echoed[3:3 + len(sent) - 2] != sent[2:]:
+            ok = False
+        n_ok += ok
+        if not ok and found < 3:
+            found += run.report_witness({"kind": "c05-cross", "property": "C05", "what": "trxcon does not accept the toolkit's reply to its own command (or the arguments are not echoed in full)",
+                                         "command": t.decode("latin1")[:300], "critical": crit, "reply": rsp.decode("latin1")[:300], "trxcon": a[:200]})
+    corr.distribution["oracle(C05): trxcon sessions against the real toolkit"] = len(lines)
+    corr.distribution["oracle(C05): toolkit replies fed to the real trxcon parser"] = len(reqs)
+    corr.distribution["oracle(C05): accepted/handled as demanded"] = n_ok
+    return found
